@@ -348,6 +348,10 @@ def check_bank(ctx, F, S, np, cfg, bad, deep=True):
     for i in idxs:
         span = sup[i][1] - sup[i][0]
         narrow = span < rate / 2
+        if cfg["cls"] in ("gabor", "gammatone"):
+            # also judged by the DOCUMENTED edge spacing, so that a bank whose reported supports_hz
+            # is itself wrong cannot exempt itself from the gain / ERB / L2 clauses
+            narrow = narrow or 8 * (lay["edges"][i + 1] - lay["edges"][i]) < rate / 2
         ctx.count("search:%s:%s" % (cfg["cls"], "narrow" if narrow else "wide"))
         if cfg["cls"] in ("tri", "fbank"):
             check_triangle(ctx, np, S, cfg, bank, i, [sup[i][0], cen[i], sup[i][1]], chk)
